@@ -4,8 +4,14 @@
 //! observations the statement names are compared pairwise: every point read, the sorted listing of
 //! every partition from the start and from every cursor, and the set of partitions.
 //!
-//! Two searches (both breadth-first by replay: RocksDB cannot be cloned, so every transition opens fresh
-//! stores in scratch directories and replays its history):
+//! Two searches, both breadth-first over store contents. RocksDB cannot be cloned and opening a fresh
+//! instance costs ~0.2 s here, so a layer's frontier is cut into a fixed number of chunks and every chunk
+//! is explored on ONE long-lived set of stores (a "session"): to expand a frontier content the session
+//! is first brought to it by one multi-partition reset commit, then the operation is committed. All of
+//! these are ordinary commits, observations are compared after every one of them (transfer commits
+//! included), so each session simply is one long explored history. A discrepancy is re-run on fresh
+//! stores with the short breadth-first history to get a minimal replay; if it only shows after the long
+//! history, the whole session trace is reported instead.
 //!  * "tree-legal": InMemory + RocksDB + RocksDB-with-Merkle-tree, keys of equal length per tier (the
 //!    Merkle store's tree documents equal-length leaf keys as a precondition; outside it its behaviour is
 //!    unspecified, so it only takes part here). 0xFF runs, partition 255 and adjacent node keys exercise
@@ -13,7 +19,7 @@
 //!  * "wild": InMemory + RocksDB only, with variable-length node keys ([1], [1,0], [0xFF]: length-prefix
 //!    collisions), the empty sort key and prefix-related sort keys.
 use crate::alphabet::*;
-use mc_core::{bfs, BfsStats, Ctx, Level, Machine};
+use mc_core::{par_map, BfsStats, Ctx, Level};
 use radix_substate_store_impls::memory_db::InMemorySubstateDatabase;
 use radix_substate_store_impls::rocks_db::RocksdbSubstateStore;
 use radix_substate_store_impls::rocks_db_with_merkle_tree::RocksDBWithMerkleTreeSubstateStore;
@@ -99,29 +105,12 @@ fn commits(ks: &KeySet, full: bool) -> Vec<Commit> {
     out
 }
 
-/// Removes its directory when dropped (declared after the store it belongs to, so dropped after it).
+/// Removes its directory when dropped (declared after the stores, so dropped after them).
 struct DirGuard(PathBuf);
 impl Drop for DirGuard {
     fn drop(&mut self) {
         let _ = std::fs::remove_dir_all(&self.0);
     }
-}
-
-struct St {
-    mem: InMemorySubstateDatabase,
-    rocks: RocksdbSubstateStore,
-    merkle: Option<RocksDBWithMerkleTreeSubstateStore>,
-    model: RefDb,
-    _dirs: Vec<DirGuard>,
-}
-
-struct M15<'a> {
-    ctx: &'a Ctx,
-    ks: KeySet,
-    commits: Vec<Commit>,
-    updates: Vec<DatabaseUpdates>,
-    offset: usize,
-    counter: AtomicU64,
 }
 
 /// Everything the statement names, read from one store.
@@ -132,10 +121,14 @@ struct Obs {
     partitions: Vec<PKey>,
 }
 
+fn extra_node() -> NodeKey {
+    vec![0x55u8, 0x55]
+}
+
 fn observe<D: SubstateDatabase + ListableSubstateDatabase>(ks: &KeySet, db: &D) -> Obs {
     let mut reads = vec![];
     let mut lists = vec![];
-    for n in ks.nodes.iter().chain(std::iter::once(&vec![0x55u8, 0x55])) {
+    for n in ks.nodes.iter().chain(std::iter::once(&extra_node())) {
         for p in &ks.parts {
             let pk = (n.clone(), *p);
             for k in ks.sorts.iter().chain(std::iter::once(&ks.absent_sort)) {
@@ -153,7 +146,7 @@ fn observe<D: SubstateDatabase + ListableSubstateDatabase>(ks: &KeySet, db: &D) 
 fn observe_model(ks: &KeySet, db: &RefDb) -> Obs {
     let mut reads = vec![];
     let mut lists = vec![];
-    for n in ks.nodes.iter().chain(std::iter::once(&vec![0x55u8, 0x55])) {
+    for n in ks.nodes.iter().chain(std::iter::once(&extra_node())) {
         for p in &ks.parts {
             let pk = (n.clone(), *p);
             for k in ks.sorts.iter().chain(std::iter::once(&ks.absent_sort)) {
@@ -176,7 +169,7 @@ fn diff(ks: &KeySet, a: &Obs, b: &Obs, an: &str, bn: &str) -> Option<(String, St
     }
     let mut ri = 0;
     let mut li = 0;
-    for n in ks.nodes.iter().chain(std::iter::once(&vec![0x55u8, 0x55])) {
+    for n in ks.nodes.iter().chain(std::iter::once(&extra_node())) {
         for p in &ks.parts {
             for k in ks.sorts.iter().chain(std::iter::once(&ks.absent_sort)) {
                 if a.reads[ri] != b.reads[ri] {
@@ -204,19 +197,29 @@ fn diff(ks: &KeySet, a: &Obs, b: &Obs, an: &str, bn: &str) -> Option<(String, St
 
 static MODEL_MISMATCH: AtomicU64 = AtomicU64::new(0);
 static STORE_OPENS: AtomicU64 = AtomicU64::new(0);
+static DIR_COUNTER: AtomicU64 = AtomicU64::new(0);
+static TRANSFER_COMMITS: AtomicU64 = AtomicU64::new(0);
+static COMMITS: AtomicU64 = AtomicU64::new(0);
 
-impl<'a> Machine for M15<'a> {
-    type Op = OpIx;
-    type St = St;
+/// One long-lived set of real stores receiving one long history.
+struct Session {
+    mem: InMemorySubstateDatabase,
+    rocks: RocksdbSubstateStore,
+    merkle: Option<RocksDBWithMerkleTreeSubstateStore>,
+    model: RefDb,
+    trace: Vec<Commit>,
+    _dirs: Vec<DirGuard>,
+}
 
-    fn init(&self) -> St {
-        let n = self.counter.fetch_add(1, Ordering::Relaxed);
-        let d1 = self.ctx.scratch_dir(&format!("{}-{}-rocks", self.ks.name, n));
+impl Session {
+    fn new(ctx: &Ctx, ks: &KeySet) -> Session {
+        let n = DIR_COUNTER.fetch_add(1, Ordering::Relaxed);
+        let d1 = ctx.scratch_dir(&format!("{}-{}-rocks", ks.name, n));
         let rocks = RocksdbSubstateStore::standard(d1.clone());
         let mut dirs = vec![DirGuard(d1)];
         STORE_OPENS.fetch_add(1, Ordering::Relaxed);
-        let merkle = if self.ks.with_merkle {
-            let d2 = self.ctx.scratch_dir(&format!("{}-{}-merkle", self.ks.name, n));
+        let merkle = if ks.with_merkle {
+            let d2 = ctx.scratch_dir(&format!("{}-{}-merkle", ks.name, n));
             let m = RocksDBWithMerkleTreeSubstateStore::standard(d2.clone());
             dirs.push(DirGuard(d2));
             STORE_OPENS.fetch_add(1, Ordering::Relaxed);
@@ -224,100 +227,260 @@ impl<'a> Machine for M15<'a> {
         } else {
             None
         };
-        St { mem: InMemorySubstateDatabase::standard(), rocks, merkle, model: RefDb::default(), _dirs: dirs }
+        Session { mem: InMemorySubstateDatabase::standard(), rocks, merkle, model: RefDb::default(), trace: vec![], _dirs: dirs }
     }
 
-    fn ops(&self, _st: &St, _depth: usize) -> Vec<OpIx> {
-        (0..self.commits.len()).map(|i| OpIx((i + self.offset) as u16)).collect()
-    }
-
-    fn step(&self, st: &mut St, op: &OpIx) -> Result<String, (String, String)> {
-        let i = op.0 as usize - self.offset;
-        let du = &self.updates[i];
-        let before = st.model.clone();
-        st.model.apply(&self.commits[i]);
-        st.mem.commit(du);
-        st.rocks.commit(du);
-        if let Some(m) = st.merkle.as_mut() {
-            m.commit(du);
+    /// Commit to every store, then compare everything the statement names pairwise.
+    fn commit_and_compare(&mut self, ks: &KeySet, c: &Commit) -> Result<(), (String, String)> {
+        let du = c.to_database_updates();
+        self.trace.push(c.clone());
+        self.model.apply(c);
+        self.mem.commit(&du);
+        self.rocks.commit(&du);
+        if let Some(m) = self.merkle.as_mut() {
+            m.commit(&du);
         }
-        let om = observe(&self.ks, &st.mem);
-        let or = observe(&self.ks, &st.rocks);
-        if let Some((k, w)) = diff(&self.ks, &om, &or, "in-memory", "rocksdb") {
+        COMMITS.fetch_add(1, Ordering::Relaxed);
+        let om = observe(ks, &self.mem);
+        let or = observe(ks, &self.rocks);
+        if let Some((k, w)) = diff(ks, &om, &or, "in-memory", "rocksdb") {
             return Err((format!("memory-vs-rocksdb:{k}"), w));
         }
-        if let Some(m) = st.merkle.as_ref() {
-            let ot = observe(&self.ks, m);
-            if let Some((k, w)) = diff(&self.ks, &om, &ot, "in-memory", "rocksdb-with-merkle-tree") {
+        if let Some(m) = self.merkle.as_ref() {
+            let ot = observe(ks, m);
+            if let Some((k, w)) = diff(ks, &om, &ot, "in-memory", "rocksdb-with-merkle-tree") {
                 return Err((format!("memory-vs-merkle:{k}"), w));
             }
-            if let Some((k, w)) = diff(&self.ks, &or, &ot, "rocksdb", "rocksdb-with-merkle-tree") {
+            if let Some((k, w)) = diff(ks, &or, &ot, "rocksdb", "rocksdb-with-merkle-tree") {
                 return Err((format!("rocksdb-vs-merkle:{k}"), w));
             }
         }
-        if om != observe_model(&self.ks, &st.model) {
+        if om != observe_model(ks, &self.model) {
             MODEL_MISMATCH.fetch_add(1, Ordering::Relaxed);
         }
-        // outcome class: what the commit did to the set of partitions / substates
-        let pb = before.partition_keys();
-        let pa = st.model.partition_keys();
-        let kind = if self.commits[i].0.len() > 1 {
-            "multi"
-        } else {
-            match &self.commits[i].0[0].pu {
-                PU::Delta(v) if v[0].1.is_some() => "set",
-                PU::Delta(_) => "delete",
-                PU::Reset(_) => "reset",
-            }
-        };
-        let effect = if before == st.model {
-            "noop"
-        } else if pa.len() > pb.len() {
-            "partition-appears"
-        } else if pa.len() < pb.len() {
-            "partition-disappears"
-        } else if pa != pb {
-            "partitions-swap"
-        } else {
-            "substates-change"
-        };
-        Ok(format!("{kind}:{effect}"))
+        Ok(())
     }
 
-    fn fingerprint(&self, st: &St) -> Vec<u8> {
-        // In-memory store contents (all stores just agreed on every observation incl. full listings).
-        mc_core::fp128(&real_contents(&st.mem).canonical_bytes())
+    /// Store contents as the state identity (read from the in-memory store after all stores agreed).
+    fn content(&self) -> RefDb {
+        real_contents(&self.mem)
+    }
+}
+
+/// The commit that turns content `from` into content `to`: a reset of every partition that differs.
+fn transfer(from: &RefDb, to: &RefDb) -> Option<Commit> {
+    let mut atoms = vec![];
+    let mut keys: Vec<&PKey> = from.parts.keys().chain(to.parts.keys()).collect();
+    keys.sort();
+    keys.dedup();
+    for p in keys {
+        if from.parts.get(p) != to.parts.get(p) {
+            let vals: Vec<(Sort, Val)> = to.parts.get(p).map(|m| m.iter().map(|(k, v)| (k.clone(), v.clone())).collect()).unwrap_or_default();
+            atoms.push(Atom::new(&p.0, p.1, PU::Reset(vals)));
+        }
+    }
+    if atoms.is_empty() {
+        None
+    } else {
+        Some(Commit(atoms))
+    }
+}
+
+fn class_of(c: &Commit, before: &RefDb, after: &RefDb) -> String {
+    let pb = before.partition_keys();
+    let pa = after.partition_keys();
+    let kind = if c.0.len() > 1 {
+        "multi"
+    } else {
+        match &c.0[0].pu {
+            PU::Delta(v) if v[0].1.is_some() => "set",
+            PU::Delta(_) => "delete",
+            PU::Reset(_) => "reset",
+        }
+    };
+    let effect = if before == after {
+        "noop"
+    } else if pa.len() > pb.len() {
+        "partition-appears"
+    } else if pa.len() < pb.len() {
+        "partition-disappears"
+    } else if pa != pb {
+        "partitions-swap"
+    } else {
+        "substates-change"
+    };
+    format!("{kind}:{effect}")
+}
+
+struct Found {
+    key: String,
+    what: String,
+    history: Vec<Commit>,
+}
+
+type StepResult = Result<(String, RefDb), Found>;
+
+/// Run `f` on the session, turning panics of the stores into findings.
+fn guarded(session: &mut Session, ks: &KeySet, c: &Commit) -> Result<(), (String, String)> {
+    match mc_core::catch(|| session.commit_and_compare(ks, c)) {
+        Ok(r) => r,
+        Err(p) => Err((format!("panic@{}", mc_core::last_panic_location()), format!("a store panicked: {p}"))),
+    }
+}
+
+/// Re-run a short history on fresh stores; Some(finding) if it reproduces there.
+fn confirm_fresh(ctx: &Ctx, ks: &KeySet, history: &[Commit]) -> Option<(String, String)> {
+    let mut s = Session::new(ctx, ks);
+    for c in history {
+        if let Err(e) = guarded(&mut s, ks, c) {
+            return Some(e);
+        }
+    }
+    None
+}
+
+/// Fixed (independent of the thread count, so that sessions are the same in every run).
+const CHUNKS: usize = 16;
+
+struct Search<'a> {
+    ctx: &'a Ctx,
+    ks: KeySet,
+    commits: Vec<Commit>,
+    /// session k serves chunk k of every layer
+    slots: Vec<std::sync::Mutex<Option<Session>>>,
+}
+
+impl<'a> Search<'a> {
+    fn expand_chunk(&self, slot: usize, chunk: &[(Vec<u16>, RefDb)], deadline_s: f64) -> (Vec<StepResult>, bool) {
+        let ks = &self.ks;
+        let mut out = vec![];
+        let mut guard = self.slots[slot].lock().unwrap();
+        let mut session = guard.take().unwrap_or_else(|| Session::new(self.ctx, ks));
+        for (hist, content) in chunk {
+            for (oi, op) in self.commits.iter().enumerate() {
+                if self.ctx.elapsed_s() > deadline_s {
+                    *guard = Some(session);
+                    return (out, true);
+                }
+                let mut r: Result<(), (String, String)> = Ok(());
+                if let Some(t) = transfer(&session.content(), content) {
+                    TRANSFER_COMMITS.fetch_add(1, Ordering::Relaxed);
+                    r = guarded(&mut session, ks, &t);
+                }
+                if r.is_ok() {
+                    r = guarded(&mut session, ks, op);
+                }
+                match r {
+                    Ok(()) => {
+                        let after = session.content();
+                        out.push(Ok((class_of(op, content, &after), after)));
+                    }
+                    Err((k, w)) => {
+                        let mut short: Vec<Commit> = hist.iter().map(|i| self.commits[*i as usize].clone()).collect();
+                        short.push(op.clone());
+                        let f = match confirm_fresh(self.ctx, ks, &short) {
+                            Some((k2, w2)) => Found { key: k2, what: w2, history: short },
+                            None => Found { key: format!("{k}:only-after-longer-history"), what: format!("{w} (not reproduced by the {}-commit breadth-first history on fresh stores; the history given is the whole session)", hist.len() + 1), history: session.trace.clone() },
+                        };
+                        out.push(Err(f));
+                        session = Session::new(self.ctx, ks); // do not let one finding contaminate the rest
+                    }
+                }
+                let _ = oi;
+            }
+        }
+        *guard = Some(session);
+        (out, false)
+    }
+
+    fn run(&self, max_depth: usize, wall_cap_s: f64) -> BfsStats {
+        let mut stats = BfsStats::default();
+        let deadline = self.ctx.elapsed_s() + wall_cap_s;
+        let mut seen: std::collections::HashSet<Vec<u8>> = std::collections::HashSet::new();
+        seen.insert(RefDb::default().canonical_bytes());
+        stats.states = 1;
+        stats.per_depth_states.push(1);
+        stats.alphabet_max = self.commits.len();
+        let mut frontier: Vec<(Vec<u16>, RefDb)> = vec![(vec![], RefDb::default())];
+        for depth in 0..max_depth {
+            if frontier.is_empty() {
+                stats.depth_completed = max_depth;
+                break;
+            }
+            if self.ctx.elapsed_s() > deadline {
+                stats.capped = true;
+                break;
+            }
+            let n_chunks = CHUNKS.min(frontier.len());
+            let per = (frontier.len() + n_chunks - 1) / n_chunks;
+            let chunks: Vec<(usize, &[(Vec<u16>, RefDb)])> = frontier.chunks(per).enumerate().collect();
+            let results = par_map(self.ctx.threads, &chunks, |(slot, chunk)| self.expand_chunk(*slot, chunk, deadline));
+            let mut local = mc_core::Local::new();
+            let mut next = vec![];
+            let mut new_states = 0;
+            let mut cut = false;
+            for ((_, chunk), (res, capped)) in chunks.iter().zip(results.into_iter()) {
+                cut |= capped;
+                let mut it = res.into_iter();
+                'chunk: for (hist, _) in chunk.iter() {
+                    for oi in 0..self.commits.len() {
+                        let Some(r) = it.next() else { break 'chunk };
+                        stats.transitions += 1;
+                        local.eval();
+                        match r {
+                            Ok((class, content)) => {
+                                local.class(&class);
+                                if seen.insert(content.canonical_bytes()) {
+                                    new_states += 1;
+                                    let mut h = hist.clone();
+                                    h.push(oi as u16);
+                                    local.sample(|| json!({"base": self.ks.name, "history": h.iter().map(|i| self.commits[*i as usize].to_json().to_string()).collect::<Vec<_>>(), "last_observation": class}));
+                                    next.push((h, content));
+                                }
+                            }
+                            Err(f) => {
+                                local.violation(f.key, f.what, json!({"base": self.ks.name, "history": f.history.iter().map(|c| c.to_json().to_string()).collect::<Vec<_>>()}));
+                            }
+                        }
+                    }
+                }
+            }
+            self.ctx.merge(local);
+            stats.states += new_states;
+            stats.per_depth_states.push(new_states);
+            stats.max_depth = depth + 1;
+            if cut {
+                stats.capped = true;
+                break;
+            }
+            stats.depth_completed = depth + 1;
+            frontier = next;
+        }
+        stats
     }
 }
 
 pub fn run(ctx: Ctx) -> ! {
+    mc_core::install_quiet_panic_hook();
     if let Some(case) = ctx.read_replay_case() {
         replay(ctx, case);
     }
-    // (key set, full alphabet?, depth)
+    // (key set, systematic alphabet?, depth)
     let plan: Vec<(KeySet, bool, usize)> =
-        if ctx.quick() { vec![(legal(), false, 3), (wild(), false, 3)] } else { vec![(legal(), false, 4), (wild(), false, 4), (legal(), true, 3), (wild(), true, 3)] };
-    let mut table = vec![];
-    let mut offsets = vec![];
-    for (ks, full, _) in &plan {
-        offsets.push(table.len());
-        table.extend(commits(ks, *full));
-    }
-    install_table(table);
+        if ctx.quick() { vec![(legal(), false, 5), (wild(), false, 5), (legal(), true, 3), (wild(), true, 3)] } else { vec![(legal(), false, 12), (wild(), false, 12), (legal(), true, 5), (wild(), true, 5)] };
     let mut total = BfsStats::default();
     let mut exhaustive = true;
     let mut searches = serde_json::Map::new();
-    for (pi, (ks, full, depth)) in plan.iter().enumerate() {
+    for (ks, full, depth) in plan.iter() {
         let cs = commits(ks, *full);
-        let updates = cs.iter().map(|c| c.to_database_updates()).collect();
-        let m = M15 { ctx: &ctx, ks: ks.clone(), commits: cs, updates, offset: offsets[pi], counter: AtomicU64::new((pi as u64) << 40) };
-        let s = bfs(&ctx, &m, ks.name, *depth, 5_000_000, ctx.pick(40.0, 500.0));
+        let search = Search { ctx: &ctx, ks: ks.clone(), commits: cs, slots: (0..CHUNKS).map(|_| std::sync::Mutex::new(None)).collect() };
+        let s = search.run(*depth, ctx.pick(12.0, 280.0));
         if s.capped {
             exhaustive = false;
         }
         searches.insert(
             format!("{}:{}:depth{}", ks.name, if *full { "systematic-alphabet" } else { "core-alphabet" }, depth),
-            json!({"alphabet": m.commits.len(), "stores": if ks.with_merkle { 3 } else { 2 }, "states": s.states, "transitions": s.transitions, "depth_completed": s.depth_completed, "capped": s.capped, "per_depth_new_states": s.per_depth_states}),
+            json!({"alphabet": search.commits.len(), "stores": if ks.with_merkle { 3 } else { 2 }, "states": s.states, "transitions": s.transitions, "depth_completed": s.depth_completed, "capped": s.capped, "per_depth_new_states": s.per_depth_states}),
         );
         total.add(&s);
     }
@@ -327,17 +490,20 @@ pub fn run(ctx: Ctx) -> ! {
     }
     let mut cov = total.coverage();
     cov.insert("searches".into(), serde_json::Value::Object(searches));
-    cov.insert("rocksdb_instances_opened".into(), json!(STORE_OPENS.load(Ordering::Relaxed)));
+    cov.insert("store_instances_opened".into(), json!(STORE_OPENS.load(Ordering::Relaxed)));
+    cov.insert("commits_compared".into(), json!(COMMITS.load(Ordering::Relaxed)));
+    cov.insert("of_which_transfer_commits".into(), json!(TRANSFER_COMMITS.load(Ordering::Relaxed)));
     let nontrivial = total.states;
     ctx.finish(
         Level::ModelChecking,
-        "a state is a distinct store content (read back from the in-memory store after all stores agreed); a transition opens fresh stores, replays the history plus one commit and compares all reads, all listings (start + every cursor) of 12 partitions and the partition set pairwise; non-trivial = distinct store contents reached",
+        "a state is a distinct store content (read back from the in-memory store after all stores agreed); a transition is one commit applied to all stores of a session positioned at the source content, followed by the pairwise comparison of all reads, all listings (start + every cursor) of 12 partitions and the partition set; non-trivial = distinct store contents reached",
         nontrivial,
         exhaustive,
         cov,
         &[
             "the Merkle-tree store only takes part with equal-length keys per tier (documented precondition of its tree); variable-length and prefix-related keys are compared between the in-memory and the plain RocksDB store",
             "dedup by content: the stores are treated as functions of their logical content once they agree on every observation including full listings (RocksDB tombstone layout is RocksDB's responsibility)",
+            "a frontier content is reached on a long-lived session by one reset commit instead of by replaying its history on fresh stores (RocksDB open costs ~0.2 s here); findings are re-run on fresh stores",
             "sizes: node keys <= 2 bytes, sort keys <= 2 bytes, values <= 2 bytes",
         ],
     )
@@ -347,22 +513,14 @@ fn replay(ctx: Ctx, case: serde_json::Value) -> ! {
     let hist = history_from_case(&case);
     let tag = case.get("base").and_then(|b| b.as_str()).unwrap_or("tree-legal").to_string();
     let ks = if tag == "wild" { wild() } else { legal() };
-    install_table(hist.clone());
-    let updates = hist.iter().map(|c| c.to_database_updates()).collect();
     {
-        let m = M15 { ctx: &ctx, ks, commits: hist.clone(), updates, offset: 0, counter: AtomicU64::new(0) };
-        let mut st = m.init();
-        for i in 0..hist.len() {
-            match mc_core::catch(|| m.step(&mut st, &OpIx(i as u16))) {
-                Ok(Ok(c)) => println!("step {i} {:?}: ok ({c})", hist[i]),
-                Ok(Err((k, w))) => {
-                    println!("step {i} {:?}: VIOLATION {k}: {w}", hist[i]);
+        let mut s = Session::new(&ctx, &ks);
+        for (i, c) in hist.iter().enumerate() {
+            match guarded(&mut s, &ks, c) {
+                Ok(()) => println!("step {i} {:?}: all stores agree; content {}", c, s.content().to_json()),
+                Err((k, w)) => {
+                    println!("step {i} {:?}: VIOLATION {k}: {w}", c);
                     ctx.violation(k, w, case.clone());
-                    break;
-                }
-                Err(p) => {
-                    println!("step {i} {:?}: PANIC {p}", hist[i]);
-                    ctx.violation(format!("panic@{}", mc_core::last_panic_location()), p, case.clone());
                     break;
                 }
             }
